@@ -346,3 +346,82 @@ func TestC02ExclusionWide(t *testing.T) {
 		Check: c02WideCheck,
 	})
 }
+
+// ---------------------------------------------------------------- a target list next to a subnet argument, with exclusions
+
+// Which addresses "-f list" together with a subnet argument denotes is not settled by the documentation (sx probes the list);
+// the exclusion clause does not depend on it: no probe may go to an excluded address, whatever else is or is not probed.
+func TestC02ListNextToSubnet(t *testing.T) {
+	kit.Run(t, kit.Spec[c01Case]{
+		Prop: "C02",
+		Rule: "icmp / udp / tcp with a target list (-f, 2..40 lines in one /24, 4- and 16-byte spellings) AND a subnet argument that is disjoint from the list, contains it, or is one of its hosts, plus 1..5 exclusion entries (hosts, CIDRs) taken from the list's addresses. Judged: only the exclusion clause - no frame is addressed to an excluded address; the command does not fail. non-trivial: some probe was sent and some listed address is excluded; distinct by case",
+		Gen: func(t *rapid.T) c01Case {
+			c := c01Case{Cmd: rapid.SampledFrom([]string{"icmp", "udp", "tcp", "tcp fin"}).Draw(t, "cmd"), Seed: rapid.Int64().Draw(t, "seed"), PortsVia: "p"}
+			base := strings.Fields(c.Cmd)[0]
+			c.Spec.HasFile = true
+			net24 := uint32(kit.UniformInt64(t, "net", 1<<24, 223<<16-1)) << 8
+			var addrs []uint32
+			for i, n := 0, rapid.IntRange(2, 40).Draw(t, "nlines"); i < n; i++ {
+				l := gram.FileLine{IP: net24 | uint32(kit.Uniform(t, "host", 256)), Mapped: rapid.Bool().Draw(t, "mapped")}
+				c.Spec.File = append(c.Spec.File, l)
+				addrs = append(addrs, l.IP)
+			}
+			if !cmdPortless(base) {
+				c.Spec.Ports = []gram.PortRange{{Start: 80, End: 80}, {Start: 443, End: 443}}
+			}
+			switch rapid.IntRange(0, 3).Draw(t, "argument") {
+			case 0:
+				c.Spec.CIDR = gram.U32String(net24) + "/24"
+			case 1:
+				c.Spec.CIDR = gram.U32String(addrs[0])
+			default:
+				c.Spec.CIDR = fmt.Sprintf("%s/%d", gram.U32String(net24^(1<<20)), rapid.IntRange(20, 30).Draw(t, "bits"))
+			}
+			for i, n := 0, rapid.IntRange(1, 5).Draw(t, "nexcl"); i < n; i++ {
+				a := addrs[kit.Uniform(t, "exaddr", len(addrs))]
+				if rapid.Bool().Draw(t, "host") {
+					c.Spec.Exclude = append(c.Spec.Exclude, gram.U32String(a))
+				} else {
+					c.Spec.Exclude = append(c.Spec.Exclude, fmt.Sprintf("%s/%d", gram.U32String(a), rapid.IntRange(25, 32).Draw(t, "exbits")))
+				}
+			}
+			c.VPN = rapid.Bool().Draw(t, "vpn")
+			return c
+		},
+		Check: func(c c01Case) *kit.Verdict {
+			v := &kit.Verdict{}
+			base := strings.Fields(c.Cmd)[0]
+			var excl []gram.Prefix
+			for _, l := range c.Spec.Exclude {
+				p, ok := gram.RefIPv4Target(l)
+				if !ok {
+					return v.Failf("harness: exclusion entry %q", l)
+				}
+				excl = append(excl, p)
+			}
+			files := &cmdFiles{}
+			defer files.cleanup()
+			args, stdin := specArgs(c.Cmd, c.Spec, c.PortsVia, false, c.VPN, files, "--exit-delay", "5ms")
+			res := runCmd(cmdRun{Args: args, Stdin: stdin, Seed: c.Seed, Timeout: 120 * time.Second})
+			line := "sx " + strings.Join(args, " ")
+			if res.Hung {
+				return v.Failf("%s did not return within 120s\n%s", line, clipN(res.Goroutines, 3000))
+			}
+			if res.Err != nil {
+				return v.Failf("%s failed: %v\nstderr: %s", line, res.Err, clipN(res.Stderr, 600))
+			}
+			got, err := probesOnWire(base, res)
+			if err != nil {
+				return v.Failf("%s: %v", line, err)
+			}
+			for p, n := range got {
+				if gram.Excluded(excl, p.IP) {
+					return v.Failf("%s\n%d probe(s) to %s, which the exclusion list %v covers", line, n, gram.U32String(p.IP), c.Spec.Exclude)
+				}
+			}
+			v.Units = gram.Total(got)
+			v.NonTrivial = len(got) > 0
+			return v
+		},
+	})
+}
